@@ -97,3 +97,71 @@ Proof.
   induction ops as [|o ops IH]; [reflexivity|].
   unfold render in *. simpl. rewrite !code_of_app, IH, render_op_code. reflexivity.
 Qed.
+
+(** A finer reading: what the writer is given are whole chunks (a `rust!` line, a table cell).  User
+    code -- action code, use items, parameter lists -- is one chunk and may span lines, with string
+    literals whose line breaks and leading blanks are part of their value.  Under every option each
+    chunk reaches the file verbatim and unsplit: indentation goes in front of a whole chunk only,
+    separators go between chunks only. *)
+Record pline := { p_indent : nat; p_chunks : list (list N); p_comment : option (list N) }.
+
+Definition prender_op (f : flags) (o : op) : list pline :=
+  match o with
+  | OLine n body => [{| p_indent := ind_of f n; p_chunks := [body]; p_comment := None |}]
+  | OComment n text => if comments f then [{| p_indent := ind_of f n; p_chunks := []; p_comment := Some text |}] else []
+  | ORow n cells =>
+    if comments f
+    then map (fun ic => {| p_indent := ind_of f n; p_chunks := [fst ic ++ [comma]]; p_comment := Some (snd ic) |}) cells
+         ++ [{| p_indent := 0; p_chunks := []; p_comment := None |}]
+    else [{| p_indent := ind_of f n; p_chunks := map (fun ic => fst ic ++ [comma]) cells; p_comment := None |}]
+  end.
+Definition prender (f : flags) (ops : list op) : list pline := flat_map (prender_op f) ops.
+Definition chunks_of (ls : list pline) : list (list N) := flat_map p_chunks ls.
+
+(* the bytes of a line: indentation, the chunks separated by one blank when whitespace is on, the comment *)
+Fixpoint join_chunks (sep : list N) (cs : list (list N)) : list N :=
+  match cs with
+  | [] => []
+  | [c] => c
+  | c :: r => c ++ sep ++ join_chunks sep r
+  end.
+Definition slashes : list N := [47; 47; 32]%N.
+Definition line_bytes (f : flags) (l : pline) : list N :=
+  repeat space (p_indent l) ++ join_chunks (if whitespace f then [space] else []) (p_chunks l)
+  ++ (match p_comment l with
+      | Some t => (match p_chunks l with [] => [] | _ => [space] end) ++ slashes ++ t
+      | None => [] end)
+  ++ [10%N].
+Definition file_bytes (f : flags) (ops : list op) : list N := flat_map (line_bytes f) (prender f ops).
+
+Lemma chunks_of_app a b : chunks_of (a ++ b) = chunks_of a ++ chunks_of b.
+Proof. unfold chunks_of. apply flat_map_app. Qed.
+
+Lemma prender_op_chunks f o : chunks_of (prender_op f o) = chunks_of (prender_op default_flags o).
+Proof.
+  destruct o as [n body|n text|n cells]; cbn [prender_op default_flags comments].
+  - reflexivity.
+  - destruct (comments f); reflexivity.
+  - destruct (comments f); [|reflexivity].
+    rewrite chunks_of_app. unfold chunks_of. cbn [flat_map p_chunks app]. rewrite !app_nil_r.
+    induction cells as [|ic r IH]; [reflexivity|]. cbn [map flat_map p_chunks app]. rewrite IH. reflexivity.
+Qed.
+
+Theorem options_keep_every_chunk_verbatim f ops : chunks_of (prender f ops) = chunks_of (prender default_flags ops).
+Proof.
+  induction ops as [|o ops IH]; [reflexivity|].
+  unfold prender in *. cbn [flat_map]. rewrite !chunks_of_app, IH, prender_op_chunks. reflexivity.
+Qed.
+
+(* a chunk written as a plain line appears in the bytes of the file exactly as given, right after its
+   indentation, whatever the options: nothing is inserted inside it *)
+Lemma oline_bytes f n body : line_bytes f {| p_indent := ind_of f n; p_chunks := [body]; p_comment := None |}
+  = repeat space (ind_of f n) ++ body ++ [10%N].
+Proof. unfold line_bytes. cbn [p_indent p_chunks p_comment join_chunks]. rewrite app_nil_l. reflexivity. Qed.
+
+(* non-vacuity: a chunk holding a two-line string literal keeps its inner line break and blanks *)
+Example multiline_chunk_verbatim :
+  let body := [34; 97; 10; 32; 32; 98; 34]%N in     (* "a\n  b" *)
+  file_bytes {| comments := true; whitespace := false |} [OLine 2 body] = body ++ [10%N] /\
+  file_bytes default_flags [OLine 2 body] = [32; 32]%N ++ body ++ [10%N].
+Proof. split; reflexivity. Qed.
